@@ -69,20 +69,23 @@ def patch_metas(ctx, nv0, keymap, extra_env):
         json.dump(meta, open(mp, "w"), indent=1)
 
 
-def crcu_conformance(ctx, flavor, scn, kmax, nsweep, nrand, tsos):
-    """SIGAT sweep (every scheduling point of e1) + random delivery, executions validated against CallRcu."""
+def crcu_conformance(ctx, flavor, scn, kmax, nsweep, nrand, tsos, plain=False):
+    """SIGAT sweep (every scheduling point of e1) + random delivery, executions validated against CallRcu.
+    plain: every compiler-instrumented plain access of the library code is a scheduling point too (CR_WATCH_PLAIN=2: a superset of the hooked
+    accesses, about twice as many delivery points: inside call_rcu_data_init, between the plain read of the reader word and its store, ...)."""
     comp = cc.component(cc.REAL_DEFINES[flavor], variant="_" + flavor) if flavor != "abs" else cc.component()
-    comp["env"] = dict(comp["env"], VRT_BUDGET=30000)
+    comp["env"] = dict(comp["env"], VRT_BUDGET=30000, **({"CR_WATCH_PLAIN": 2} if plain else {}))
     proj = cc.project_real if flavor != "abs" else cc.project
     wd = os.path.join(ctx.outdir, "work_crcu_" + flavor); shutil.rmtree(wd, ignore_errors=True); os.makedirs(wd)
     exe = build_driver(comp["drvname"], comp["driver"], defines=comp["defines"], tag=ctx.pid + "_" + comp["drvname"])
     sc = load_scenario(scn)
-    sites = set(); n0 = ctx.traces
-    fenv = {"CR_REAL_FLAVOR": flavor} if flavor != "abs" else {}
+    sites = set(); n0 = ctx.traces; points = 0
+    fenv = dict({"CR_REAL_FLAVOR": flavor} if flavor != "abs" else {}, **({"CR_WATCH_PLAIN": 2} if plain else {}))
+    tag = "%s/%s%s" % (scn, flavor, "+plain" if plain else "")
     for tso in tsos:
         if len(ctx.violations) >= conc.MAXV:
             break
-        allruns = []; miss = 0; keymap = {}
+        allruns = []; miss = 0; keymap = {}; pts = 0
         for k in range(kmax):
             env = {"VRT_SIGAT": "%s:%d" % (SIG_THREAD, k), "VRT_SIGS": 0}
             runs, fails, pf = conc.run_batch(ctx, comp, exe, sc, tso, [ctx.seed * 7 + j for j in range(nsweep)], wd, env_extra=env)
@@ -96,8 +99,10 @@ def crcu_conformance(ctx, flavor, scn, kmax, nsweep, nrand, tsos):
                     sites.add(st); hit += 1
                 allruns.append((s * 1000 + k, proj(ev))); keymap[s * 1000 + k] = (s, env)
             miss = 0 if hit else miss + 1
+            pts += 1 if hit else 0
             if miss >= 3:       # past the last scheduling point of the thread
                 break
+        points = max(points, pts)
         env = {"VRT_SIGS": sc.get("sig_budget", 1)}
         runs, fails, pf = conc.run_batch(ctx, comp, exe, sc, tso, [ctx.seed * 100003 + 90000 + i for i in range(nrand)], wd, env_extra=env)
         for f in fails:
@@ -117,9 +122,10 @@ def crcu_conformance(ctx, flavor, scn, kmax, nsweep, nrand, tsos):
         nv0 = len(ctx.violations)
         conc.validate(ctx, comp, sc, tso, allruns, wd, "tvsig_%s_%s_%d" % (flavor, scn, tso))
         patch_metas(ctx, nv0, keymap, fenv)
-    ctx.extra.setdefault("interruption_points_exercised", {})["%s/%s" % (scn, flavor)] = len(sites)
-    ctx.extra.setdefault("interruption_sites", {})["%s/%s" % (scn, flavor)] = sorted(sites)
-    log("  [sig call_rcu] %s over %s: %d distinct interruption sites, traces validated %d, violations %d" % (scn, flavor, len(sites), ctx.traces - n0, len(ctx.violations)))
+    ctx.extra.setdefault("interruption_points_exercised", {})[tag] = points          # scheduling points of the interrupted thread at which the handler was delivered (VRT_SIGAT sweep)
+    ctx.extra.setdefault("interruption_sites", {})[tag] = sorted(sites)             # ... described by nesting depth found and the thread's last recorded event (sweep and random delivery)
+    log("  [sig call_rcu] %s: handler delivered at %d scheduling points (%d distinct sites by depth / preceding event), traces validated %d, violations %d" % (
+        tag, points, len(sites), ctx.traces - n0, len(ctx.violations)))
     shutil.rmtree(wd, ignore_errors=True)
 
 
@@ -253,15 +259,17 @@ def run_parts(ctx):
             jobs.append(("crcu", s2, None, pool.submit(cc.model_check, crcomp, s2, W, mc_timeout, (), (), False)))
         # ---- A: call_rcu() interrupted, real flavors
         if q:
-            crcu_conformance(ctx, "mb", "crcu_sig", 30, 1, 12, (1,))
-            crcu_conformance(ctx, "mb", "crcu_sig_nest", 30, 1, 12, (1,))
-            crcu_conformance(ctx, "mb", "crcu_sig_pre", 30, 1, 12, (0,))
-            crcu_conformance(ctx, "memb", "crcu_sig_nest", 30, 1, 12, (1,))
+            crcu_conformance(ctx, "mb", "crcu_sig", 70, 1, 12, (1,), plain=True)
+            crcu_conformance(ctx, "mb", "crcu_sig_nest", 70, 1, 12, (1,), plain=True)
+            crcu_conformance(ctx, "mb", "crcu_sig_pre", 70, 1, 12, (0,), plain=True)
+            crcu_conformance(ctx, "memb", "crcu_sig_nest", 70, 1, 12, (1,), plain=True)
         else:
             for fl in ("mb", "memb", "abs"):
                 for s in CRCU_ALL:
                     if len(ctx.violations) < conc.MAXV:
                         crcu_conformance(ctx, fl, s, 40, 6, 400, (0, 1))
+                    if len(ctx.violations) < conc.MAXV and fl != "abs":
+                        crcu_conformance(ctx, fl, s, 90, 3, 200, (0, 1), plain=True)
         # ---- B: depth 2, inside synchronize_rcu (UrcuGp)
         for (fl, kind), comp in gp.items():
             if len(ctx.violations) >= conc.MAXV:
